@@ -6,7 +6,7 @@ that is an *adversary*: wherever the library ranges over a map, the list of entr
 of a map have pairwise distinct keys).
 
 This file holds (a) small executable models of every *pattern* in which package graphql ranges over a map
-(29 sites today, `Generated.mapRangeSites`), parametrised by the adversary, and (b) the hand-written
+(30 sites today, `Generated.mapRangeSites`), parametrised by the adversary, and (b) the hand-written
 classification `siteClass` of each site into one of those patterns, with decidable consistency checks
 against the regenerated tables. The theorems are in `Props/C12.lean`. -/
 namespace GqlModel.Determinism
@@ -155,7 +155,9 @@ def siteClass : List (SiteKey × String × Class) := [
   (("introspection.go", "init", "ttype.Fields()", 2), "vals>sort.Slice", .sortedAfter),
   -- __Type.inputFields: values collected, sort.Slice by PrivateName (95d672d, was D-12c)
   (("introspection.go", "init", "ttype.Fields()", 3), "vals>sort.Slice", .sortedAfter),
-  -- args[k] = v : copy of the plan's static argument map
+  -- out[k] = copyArgValue(item): deep copy of a pre-coerced input-object argument value (9d8dc62)
+  (("plan.go", "copyArgValue", "val", 0), "noappend", .commutative),
+  -- args[k] = copy of v : copy of the plan's static argument map
   (("plan.go", "resolvePlannedField", "fp.args.static", 0), "noappend", .commutative),
   -- type names collected and handed to suggestionList (filter + sort by (distance, name))
   (("rules.go", "KnownTypeNamesRule", "context.Schema().TypeMap()", 0), "keys>suggestionList", .sortedAfter),
